@@ -308,9 +308,51 @@ def check_locking_deque(run, model, rule_ends, rule_token, rule_bound, rule_mono
                         dq, dq_ctor = d.split('.', 1)[1], n.value
                     elif nm in ('Queue', 'queue.Queue'):
                         tq, tq_ctor = d.split('.', 1)[1], n.value
+    handed = None
+    if dq is None:
+        # the deque may be handed in: `def __init__(self, items=None): if items is None: items = deque(..); self.deque = items`
+        idefs = local_defs(init.node)
+        for n in walk_shallow(init.node):
+            if isinstance(n, ast.Assign) and isinstance(n.value, ast.Name) and n.value.id in init.params[1:]:
+                ctors = [d_ for d_ in idefs.get(n.value.id, []) if isinstance(d_, ast.Call) and norm(d_.func) == 'deque']
+                for t in n.targets:
+                    d = dotted(t)
+                    if d and d.startswith('self.') and ctors:
+                        dq, dq_ctor, handed = d.split('.', 1)[1], ctors[0], n.value.id
     if dq is None or tq is None:
         raise AnalysisError('LockingDeque: deque / token queue fields not identified')
     info = {'deque': dq, 'tokens': tq}
+    if handed is not None:
+        # every deque that is handed in must have the capacity the token queue has
+        idx = init.params.index(handed) - 1
+        tq_size = next((kw.value for kw in tq_ctor.keywords if kw.arg == 'maxsize'), tq_ctor.args[0] if tq_ctor.args else None)
+        for f_ in model.all_funcs():
+            for c_ in [x for x in ast.walk(f_.node) if isinstance(x, ast.Call) and norm(x.func).split('.')[-1] == 'LockingDeque']:
+                arg = c_.args[idx] if idx < len(c_.args) else next((k.value for k in c_.keywords if k.arg == handed), None)
+                if arg is None:
+                    continue
+                src = None
+                da = dotted(arg)
+                if da and f_.params and da.startswith(f_.params[0] + '.') and f_.owner_class is not None:
+                    attr_ = da.split('.', 1)[1]
+                    for k_ in [f_.owner_class] + list(model.mro(f_.owner_class)[1:]):
+                        for m_ in k_.methods.values():
+                            for y in walk_shallow(m_.node):
+                                if isinstance(y, ast.Assign) and isinstance(y.value, ast.Call) and norm(y.value.func) == 'deque' and m_.params \
+                                        and any(dotted(t_) == m_.params[0] + '.' + attr_ for t_ in y.targets):
+                                    src = y.value
+                elif isinstance(arg, ast.Call) and norm(arg.func) == 'deque':
+                    src = arg
+                if src is None:
+                    raise AnalysisError('LockingDeque is handed %s in %s: where that deque is created was not found' % (norm(arg), f_.qualname))
+                ml = next((kw.value for kw in src.keywords if kw.arg == 'maxlen'), src.args[1] if len(src.args) > 1 else None)
+                canon = lambda e: (norm(e).replace('self.__class__.', 'CLS.').replace('type(self).', 'CLS.') if e is not None else None)
+                okb = ml is not None and tq_size is not None and canon(ml) == canon(tq_size)
+                run.inst(rule_bound, f_, 'the deque handed to LockingDeque has the token queue\'s capacity (%s)' % canon(ml), okb,
+                         '' if okb else ('%s hands LockingDeque a deque of capacity %s while the wake-up token queue holds %s: for an object whose two numbers differ the item count and the '
+                                         'token count part ways - with more room in the deque a post finds the token queue full, adds anyway and then blocks for good in the repair put; with '
+                                         'less, tokens outnumber events and the wrong element is given up on overflow' % (f_.qualname, canon(ml), canon(tq_size))),
+                         node=c_, obligation=True)
     # ---- BOUND
     maxlen = next((kw.value for kw in dq_ctor.keywords if kw.arg == 'maxlen'), dq_ctor.args[1] if len(dq_ctor.args) > 1 else None)
     maxsize = next((kw.value for kw in tq_ctor.keywords if kw.arg == 'maxsize'), tq_ctor.args[0] if tq_ctor.args else None)
@@ -784,3 +826,69 @@ def token_pairing(run, model, cg, rule):
              '' if ok else ('an iteration of the active object\'s thread loop takes %s tokens and handles %s events: tokens and pending events are no longer paired, the token queue fills up '
                             'while the deque is nearly empty, and from then on LockingDeque.append treats every delivery as an overflow (rotate + append): a delivered event is placed '
                             'behind or in front of the wrong pending events' % (wc, sc)), node=h.ast, obligation=True)
+
+
+DEQUE_API = {'append', 'appendleft', 'pop', 'popleft', 'rotate', 'insert', 'extend', 'extendleft', 'clear', 'remove', 'reverse', '__iter__', '__getitem__', '__setitem__',
+             '__delitem__', '__len__', '__bool__', '__contains__', 'copy', '__reversed__'}
+
+
+def check_queue_classes(run, model, cg, rule):
+    """the pending-event queue and the deferral queue are collections.deque objects (an active object wraps the former in its LockingDeque, checked on its own): the order
+    rules reason with deque's own append/appendleft/popleft/rotate.  A subclass of deque that redefines part of that interface is a different container."""
+    hq = model.cls('HsmWithQueues')
+    n = 0
+    for attr in ('queue', 'defer_queue'):
+        for owner in [k for k in model.classes.values() if k is hq or hq in model.mro(k)]:
+            tys = set()
+            for t_ in cg.field_types.get((owner.name, attr), set()):
+                if isinstance(t_, tuple) and t_ and t_[0] == 'alias':
+                    tys |= {x for x in cg.field_types.get((owner.name, t_[1]), set()) if not isinstance(x, tuple)}       # self.queue = self.locking_deque
+                else:
+                    tys.add(t_)
+            for ty in sorted(str(t) for t in tys):
+                n += 1
+                base = ty.split('.')[-1]
+                if base in ('deque', 'LockingDeque'):
+                    run.inst(rule, owner.name, '%s.%s is a %s' % (owner.name, attr, base), True, nontrivial=False)
+                    continue
+                k = model.classes.get(base)
+                if k is None:
+                    raise AnalysisError('%s.%s may hold a %s: not a container the queue rules know' % (owner.name, attr, ty))
+                bases = [norm(b).split('.')[-1] for b in k.node.bases]
+                if 'deque' not in bases:
+                    raise AnalysisError('%s.%s may hold a %s (bases %s): not a container the queue rules know' % (owner.name, attr, ty, bases))
+                over = sorted(set(k.methods) & DEQUE_API)
+                run.inst(rule, k.name, '%s.%s is a %s, a deque subclass that keeps deque\'s own interface' % (owner.name, attr, base), not over,
+                         '' if not over else ('%s.%s is a %s, a subclass of deque that redefines %s: posts and steps no longer act on the queue the way the same operations act on a '
+                                              'collections.deque(maxlen=QUEUE_SIZE) - which element a full queue gives up, or where an element lands, is decided by the subclass'
+                                              % (owner.name, attr, base, ', '.join(over))), obligation=True)
+    run.floor('queue fields typed', n, 2)
+
+
+def check_queue_writers(run, model, rule):
+    """who may touch the pending-event queue: post_fifo / post_lifo (add at one end), next_rtc (pop at the consumer end), stop() (the wake-up item) and the LockingDeque's own
+    methods.  Anything else that removes, rotates, inserts or reorders it - from any thread - changes the order in which the chart reacts, or races the consumer."""
+    MUT = {'append', 'appendleft', 'pop', 'popleft', 'rotate', 'insert', 'extend', 'extendleft', 'clear', 'remove', 'reverse', 'sort'}
+    ALLOWED = {('HsmWithQueues', 'post_fifo'), ('HsmWithQueues', 'post_lifo'), ('HsmWithQueues', 'next_rtc'), ('ActiveObject', 'stop'), ('HsmWithQueues', '__init__'), ('ActiveObject', '__init__'),
+               ('ActiveObject', '__start'), ('HsmWithQueues', 'clear_spy'), ('ActiveObject', 'clear')}
+    hq = model.cls('HsmWithQueues')
+    n = 0
+    for f in model.all_funcs():
+        k = f.owner_class
+        root = f
+        while getattr(root, 'parent', None) is not None:
+            root = root.parent
+        k = root.owner_class
+        if k is None or not (k is hq or hq in model.mro(k)) or not root.params:
+            continue
+        selfn = root.params[0]
+        for c in [x for x in ast.walk(f.node) if isinstance(x, ast.Call) and isinstance(x.func, ast.Attribute) and x.func.attr in MUT]:
+            d = dotted(c.func.value) or ''
+            if d in (selfn + '.queue', selfn + '.queue.deque', selfn + '.locking_deque', selfn + '.locking_deque.deque'):
+                n += 1
+                ok = (k.name, root.name) in ALLOWED or any((b.name, root.name) in ALLOWED for b in model.mro(k))
+                run.inst(rule, f, 'queue operation %s in %s.%s' % (norm(c.func), k.name, root.name), ok,
+                         '' if ok else ('%s performs %s on the pending-event queue. Only post_fifo/post_lifo add to it and only next_rtc takes from it; an operation that removes, rotates or '
+                                        'reorders it elsewhere interleaves with deliveries and posts from other threads (an event that arrives while the queue is rotated ends up in front '
+                                        'of events that were already pending) and with the consumer\'s pop' % (f.qualname, norm(c))), node=c, obligation=True)
+    run.floor('operations on the pending-event queue found', n, 3)
